@@ -1,15 +1,25 @@
 (* Analytic reading of DersGeneral.v: the rows of helpers.basis_function_ders (A2.3) are successive TRUE derivatives
-   (standard library derivable_pt_lim) - all degrees, sorted knot vectors with any multiplicities, orders <= degree.
+   (standard library derivable_pt_lim) - ALL degrees, sorted knot vectors with any multiplicities, orders <= degree.
+   General-degree versions of T4 of Proofs/DerivLink.v (same statement shapes, bound 1 <= p <= 5 removed, any order <= p).
 
-   For a fixed span the map  u |-> ders[k][r]  is the k-th derivative of the polynomial piece of N_{span-p+r,p};
-   so it is differentiable at every real x with derivative ders[k+1][r] (ders_rows_derivable), and row 0 coincides with
-   the Cox-de Boor function on the half-open span (ders_row0_is_N).  Hence, inside the span, row k is the k-th
-   derivative of N_{span-p+r,p} (ders_kth_deriv_on), with right derivatives at the left knot. *)
+   For a fixed span the map  u |-> ders[k][r]  is the k-th derivative of the polynomial piece of N_{span-p+r,p}: it is
+   differentiable at EVERY real x with derivative ders[k+1][r] (ders_consecutive_rows_general - also outside the span
+   and at its two knots, e.g. at the closed right end of the domain where geomdl evaluates with the last span), and row 0
+   coincides with the Cox-de Boor function on the half-open span.  Hence, inside the span, row k is the k-th derivative
+   of N_{span-p+r,p} (ders_is_true_derivative_general). *)
 From Coq Require Import List Reals Lra Lia Arith Bool.
 From NV Require Import Scalar.Ops Model.Common Model.Basis Proofs.Boehm Proofs.BasisR
                        Proofs.DerivAnalytic Proofs.DersEq210 Proofs.DersNdu Proofs.DersGeneral.
 Import ListNotations.
 Open Scope R_scope.
+
+Lemma kth_deriv_on_ext' a b j f : forall g h, (forall x, a < x < b -> h x = g x) ->
+  kth_deriv_on a b j f g -> kth_deriv_on a b j f h.
+Proof.
+  destruct j as [|j]; cbn [kth_deriv_on]; intros g h E H.
+  - intros x Hx. rewrite E by exact Hx. apply H. exact Hx.
+  - destruct H as (g' & H1 & H2). exists g'. split; [exact H1|]. intros x Hx. rewrite E by exact Hx. apply H2. exact Hx.
+Qed.
 
 Section Analytic.
 Variables (U : list R) (span : nat) (p : nat) (order : nat).
@@ -19,74 +29,78 @@ Hypothesis HL : (span + p < length U)%nat.
 Hypothesis HL1 : (span + 1 < length U)%nat.
 Hypothesis Ho : (order <= p)%nat.
 
-(* entry (k, r) of the table as a function of the parameter, the span being fixed *)
-Definition ders_entry (k r : nat) (y : R) : R := nth r (nth k (basis_function_ders Rops p U span y order) []) 0.
-
 Notation V := (Ufun U).
-Notation i r := (span - p + r)%nat.
+Notation entry k r := (fun y : R => nth r (nth k (basis_function_ders Rops p U span y order) []) 0).
 
-(* each row is, everywhere, the derivative of the previous row *)
-Theorem ders_rows_derivable k r x :
+Let Vs := Ufun_sorted U Usorted.
+Let Ek : Ufun U span = knR U span. Proof. apply Ufun_in. lia. Qed.
+Let Ek1 : Ufun U (S span) = knR U (span + 1). Proof. rewrite Ufun_in by lia. f_equal. lia. Qed.
+
+(* each row is, at every real u, the derivative of the previous row (the span argument being fixed) *)
+Theorem ders_consecutive_rows_general k r u :
   (S k <= order)%nat -> (r <= p)%nat ->
-  derivable_pt_lim (ders_entry k r) x (ders_entry (S k) r x).
+  derivable_pt_lim (entry k r) u (entry (S k) r u).
 Proof.
-  intros Hk Hr. unfold ders_entry at 2.
-  rewrite (ders_general_pieces U span p Usorted Hp HL HL1 x order (S k) r) by lia.
-  apply (dl_ext (dNk V span k p (i r))).
-  - intros y. unfold ders_entry. symmetry.
-    apply (ders_general_pieces U span p Usorted Hp HL HL1 y order k r); lia.
-  - apply dNk_deriv. apply Ufun_sorted. exact Usorted.
+  intros Hk Hr. cbv beta.
+  rewrite (ders_general_pieces U span p Usorted Hp HL HL1 u order (S k) r) by lia.
+  apply (dl_ext (dNk V span k p (span - p + r))).
+  - intros y. symmetry. apply (ders_general_pieces U span p Usorted Hp HL HL1 y order k r); lia.
+  - apply dNk_deriv. exact Vs.
 Qed.
 
-(* row 0 is the Cox-de Boor function on the half-open span *)
-Theorem ders_row0_is_N r x :
-  knR U span <= x < knR U (span + 1) -> (r <= p)%nat -> ders_entry 0 r x = N V p (i r) x.
-Proof.
-  intros Hx Hr. unfold ders_entry.
-  rewrite (ders_general U span p Usorted Hp HL HL1 x order 0 r) by (try assumption; lia). reflexivity.
-Qed.
+Corollary ders_right_derivative_general k r u :
+  (S k <= order)%nat -> (r <= p)%nat ->
+  right_derivable_pt_lim (entry k r) u (entry (S k) r u).
+Proof. intros Hk Hr. apply dl_right_of_two_sided. apply ders_consecutive_rows_general; assumption. Qed.
 
-Lemma open_span_fun x : V span < x < V (S span) -> knR U span <= x < knR U (span + 1).
-Proof. replace (S span) with (span + 1)%nat by lia. rewrite !Ufun_in by lia. lra. Qed.
+Corollary ders_right_derivative_at_knot_general k r :
+  (S k <= order)%nat -> (r <= p)%nat ->
+  right_derivable_pt_lim (entry k r) (knR U span) (entry (S k) r (knR U span)).
+Proof. apply ders_right_derivative_general. Qed.
 
 (* inside the span, row k is the k-th derivative of N_{span-p+r,p} *)
-Theorem ders_kth_deriv_on k r :
+Theorem ders_is_true_derivative_general k r :
   (k <= order)%nat -> (r <= p)%nat ->
-  kth_deriv_on (V span) (V (S span)) k (fun x => N V p (i r) x) (ders_entry k r).
+  kth_deriv_on (knR U span) (knR U (span + 1)) k (fun x => N V p (span - p + r) x) (entry k r).
 Proof.
-  intros Hk Hr. destruct k as [|k]; cbn [kth_deriv_on].
-  - intros x Hx. apply ders_row0_is_N; [apply open_span_fun; exact Hx|exact Hr].
-  - exists (fun x => dN V k p (i r) x). split.
-    + apply dN_iterated. apply Ufun_sorted. exact Usorted.
-    + intros x Hx. unfold ders_entry.
-      rewrite (ders_general U span p Usorted Hp HL HL1 x order (S k) r)
-        by (try assumption; try lia; apply open_span_fun; exact Hx).
-      apply (dN_is_kth_derivative V (Ufun_sorted U Usorted) span). exact Hx.
+  intros Hk Hr.
+  apply (kth_deriv_on_ext' _ _ _ _ (fun x => dN V k p (span - p + r) x)).
+  - intros x Hx. apply (ders_general U span p Usorted Hp HL HL1); try assumption. lra.
+  - rewrite <- Ek, <- Ek1. apply dN_iterated. exact Vs.
 Qed.
 
 (* first derivative, spelled out: row 1 is the derivative of the basis function *)
-Corollary ders_row1_is_derivative r x :
-  (1 <= order)%nat -> (r <= p)%nat -> V span < x < V (S span) ->
-  derivable_pt_lim (fun y => N V p (i r) y) x (ders_entry 1 r x).
+Corollary ders_row1_is_derivative_general r u :
+  (1 <= order)%nat -> (r <= p)%nat -> knR U span < u < knR U (span + 1) ->
+  derivable_pt_lim (fun y => N V p (span - p + r) y) u (entry 1 r u).
 Proof.
-  intros H1 Hr Hx. unfold ders_entry.
-  rewrite (ders_general U span p Usorted Hp HL HL1 x order 1 r)
-    by (try assumption; try lia; apply open_span_fun; exact Hx).
-  apply (dN1_is_derivative V (Ufun_sorted U Usorted) span). exact Hx.
-Qed.
-
-(* on the half-open span, in particular at the left knot: right derivatives of the spec functions *)
-Theorem ders_right_derivative k r x :
-  (S k <= order)%nat -> (r <= p)%nat -> knR U span <= x < knR U (span + 1) ->
-  right_derivable_pt_lim (fun y => dN V k p (i r) y) x (ders_entry (S k) r x).
-Proof.
-  intros Hk Hr Hx. unfold ders_entry.
-  rewrite (ders_general U span p Usorted Hp HL HL1 x order (S k) r) by (try assumption; lia).
-  apply (dN_right_derivative V (Ufun_sorted U Usorted) span). replace (S span) with (span + 1)%nat by lia. rewrite !Ufun_in by lia. exact Hx.
+  intros H1 Hr Hu. cbv beta.
+  rewrite (ders_general U span p Usorted Hp HL HL1 u order 1 r) by (try assumption; try lia; lra).
+  apply (dN1_is_derivative V Vs span). rewrite Ek, Ek1. exact Hu.
 Qed.
 End Analytic.
 
-Print Assumptions ders_rows_derivable.
-Print Assumptions ders_kth_deriv_on.
-Print Assumptions ders_row1_is_derivative.
-Print Assumptions ders_right_derivative.
+Check ders_consecutive_rows_general.
+Check ders_right_derivative_general.
+Check ders_right_derivative_at_knot_general.
+Check ders_is_true_derivative_general.
+Check ders_row1_is_derivative_general.
+Print Assumptions ders_consecutive_rows_general.
+Print Assumptions ders_right_derivative_general.
+Print Assumptions ders_is_true_derivative_general.
+Print Assumptions ders_row1_is_derivative_general.
+
+(* sanity (non-vacuity): degree 6 (beyond the brute-force bound), a knot vector with a double interior knot;
+   the hypotheses are satisfiable *)
+Example ders_general_sanity : forall u, 1 < u < 2 ->
+  let U := [0; 0; 0; 0; 0; 0; 0; 1; 1; 2; 3; 3; 3; 3; 3; 3; 3] in
+  derivable_pt_lim (fun x => N (Ufun U) 6 (8 - 6 + 2) x) u
+                   (nth 2 (nth 1 (basis_function_ders Rops 6 U 8 u 3) []) 0).
+Proof.
+  intros u Hu U. subst U.
+  apply (ders_row1_is_derivative_general _ 8 6 3); try (cbn [length]; lia).
+  - intros i j H. cbn [length] in H.
+    do 17 (destruct i as [|i]; [do 17 (destruct j as [|j]; [first [exfalso; lia | cbn [kn nth]; rsimp; lra]|]); exfalso; lia|]).
+    exfalso; lia.
+  - cbn [kn nth Nat.add]. exact Hu.
+Qed.
